@@ -57,8 +57,31 @@ type streamableBE struct {
 	sids      []string          // model session -> real id
 	ctxs      []context.Context // session contexts built while the session was alive
 	streams   map[int]*hk.Stream
-	old       map[int][]*hk.Stream // replaced / closed streams of a session (their frames still count)
+	old       map[int][]*hk.Stream  // replaced / closed streams of a session (their frames still count)
+	broken    map[int]*brokenStream // sessions whose registered stream is an in-process writer that fails every write
 }
+
+// brokenStream is a GET handled in process on a ResponseWriter that accepts the headers and fails every Write.
+type brokenStream struct {
+	cancel context.CancelFunc
+	done   chan struct{}
+}
+
+type failingWriter struct {
+	hdr    http.Header
+	once   sync.Once
+	status chan int
+}
+
+func (w *failingWriter) Header() http.Header { return w.hdr }
+func (w *failingWriter) WriteHeader(code int) {
+	w.once.Do(func() { w.status <- code })
+}
+func (w *failingWriter) Write(p []byte) (int, error) {
+	w.WriteHeader(200)
+	return 0, fmt.Errorf("write: broken pipe")
+}
+func (w *failingWriter) Flush() {}
 
 func newStreamable(c *hk.Ctx, stateless bool, start int64) *streamableBE {
 	mode := "stateful"
@@ -68,7 +91,7 @@ func newStreamable(c *hk.Ctx, stateless bool, start int64) *streamableBE {
 	f := hk.NewFixture(hk.SrvCfg{Mode: mode, Get: true, PostSSE: false})
 	mcp.VerifSetServerRequestID(f.S, start)
 	return &streamableBE{book: book{waiters: map[int]*waiter{}, idToTag: map[int64]int{}, poster: map[int]int{}, srv: f.S}, c: c, f: f, stateless: stateless,
-		streams: map[int]*hk.Stream{}, old: map[int][]*hk.Stream{}}
+		streams: map[int]*hk.Stream{}, old: map[int][]*hk.Stream{}, broken: map[int]*brokenStream{}}
 }
 
 func (b *streamableBE) name() string {
@@ -116,6 +139,7 @@ func (b *streamableBE) exec(o op) string {
 				b.old[*o.S] = append(b.old[*o.S], st)
 				delete(b.streams, *o.S)
 			}
+			b.dropBroken(*o.S, false)
 			return "ok"
 		case 404:
 			return "err:notFound"
@@ -132,6 +156,7 @@ func (b *streamableBE) exec(o op) string {
 				endedOrDegrade(prev) // the server ends the stream it replaces
 				b.old[*o.S] = append(b.old[*o.S], prev)
 			}
+			b.dropBroken(*o.S, false) // a broken stream it replaces is ended by the server too
 			b.streams[*o.S] = st
 			return "ok"
 		case 404:
@@ -140,7 +165,49 @@ func (b *streamableBE) exec(o op) string {
 			return "err:unsupported"
 		}
 		return fmt.Sprintf("err:other:%d", status)
+	case "breakStream":
+		ctx, cancel := context.WithCancel(context.Background())
+		req := httptest.NewRequest("GET", "/mcp", nil).WithContext(ctx)
+		req.Header.Set("Accept", "text/event-stream")
+		req.Header.Set("Mcp-Session-Id", b.sid(*o.S))
+		fw := &failingWriter{hdr: http.Header{}, status: make(chan int, 1)}
+		bs := &brokenStream{cancel: cancel, done: make(chan struct{})}
+		go func() { b.f.S.Handler().ServeHTTP(fw, req); close(bs.done) }()
+		status := 0
+		select {
+		case status = <-fw.status:
+		case <-bs.done:
+			select {
+			case status = <-fw.status:
+			default:
+			}
+		case <-time.After(waitCeiling()):
+			degraded.Store(true)
+		}
+		if status != 200 {
+			cancel()
+			if status == 404 {
+				return "err:notFound"
+			}
+			return fmt.Sprintf("err:other:%d", status)
+		}
+		if prev := b.streams[*o.S]; prev != nil {
+			endedOrDegrade(prev)
+			b.old[*o.S] = append(b.old[*o.S], prev)
+			delete(b.streams, *o.S)
+		}
+		b.dropBroken(*o.S, false)
+		b.broken[*o.S] = bs
+		return "ok"
 	case "closeStream":
+		if b.broken[*o.S] != nil {
+			id := b.sid(*o.S)
+			b.dropBroken(*o.S, true)
+			if !waitUntil(func() bool { return !mcp.VerifHasGetStream(b.f.S, id) }) {
+				return "err:other:stream still registered after its peer went away"
+			}
+			return "ok"
+		}
 		if st := b.streams[*o.S]; st != nil {
 			b.drain(*o.S, st) // the peer reads everything that was written to it before it hangs up
 			st.CloseByClient()
@@ -196,6 +263,25 @@ func (b *streamableBE) exec(o op) string {
 		return b.settle(*o.M)
 	}
 	return "err:other:unknown op"
+}
+
+// dropBroken forgets the in-process broken stream of a session; byPeer: the peer goes away (its request context ends),
+// otherwise the server has ended or will end it.
+func (b *streamableBE) dropBroken(s int, byPeer bool) {
+	bs := b.broken[s]
+	if bs == nil {
+		return
+	}
+	delete(b.broken, s)
+	if byPeer {
+		bs.cancel()
+	}
+	select {
+	case <-bs.done:
+	case <-time.After(waitCeiling()):
+		bs.cancel()
+		degraded.Store(true)
+	}
 }
 
 func rawID(id any) string {
@@ -314,6 +400,9 @@ func (b *streamableBE) close() {
 	}
 	for _, st := range b.streams {
 		st.CloseByClient()
+	}
+	for s := range b.broken {
+		b.broken[s].cancel()
 	}
 	b.f.Close()
 }
